@@ -420,6 +420,21 @@ func digests(seed uint64) []string {
 			add(fmt.Sprintf("font%d/read", i), raw)
 		}
 	}
+	// fonts whose header carries a creation date in each of the accepted
+	// layouts (three of them without a zone): the instant read must not depend
+	// on the environment of the reading process, and writing the font again
+	// must give the same bytes everywhere
+	for i, date := range []string{"2021-03-04 05:06:07 +0100 CET", "Thu Oct 21 11:22:33 1999", "Thu, 21 Oct 1999 11:22:33", "Thu Oct 21 1999", "2021-07-04 05:06:07 -0400 EDT"} {
+		src := "%!PS-AdobeFont-1.0: Dated 1.0\n%%CreationDate: " + date + "\n" + datedFontBody
+		g, err := type1.Read(strings.NewReader(src))
+		if err != nil {
+			out = append(out, fmt.Sprintf("dated%d error %v", i, err))
+			continue
+		}
+		var buf bytes.Buffer
+		g.Write(&buf, &type1.WriterOptions{Format: type1.FormatNoEExec})
+		add(fmt.Sprintf("dated%d/unix=%d", i, g.CreationDate.Unix()), buf.Bytes())
+	}
 	for i, m := range metrics {
 		o, _ := metricsOutputs(m)
 		add(fmt.Sprintf("afm%d", i), o["afm"])
@@ -431,6 +446,20 @@ func digests(seed uint64) []string {
 	}
 	return out
 }
+
+var datedFontBody = `11 dict begin
+/FontInfo 2 dict dup begin /version (1) def end def
+/FontName /Dated def /PaintType 0 def /FontType 1 def
+/FontMatrix [0.001 0 0 0.001 0 0] def /Encoding StandardEncoding def /FontBBox {0 0 0 0} def
+currentdict end
+dup /Private 5 dict dup begin
+/RD {string currentfile exch readstring pop} executeonly def /ND {noaccess def} executeonly def /NP {noaccess put} executeonly def
+/BlueValues [] def
+2 index /CharStrings 1 dict dup begin
+/.notdef 8 RD ` + string(t1ref.EncryptCharstring([]byte{0x8b, 0x8b, 0x0d, 0x0e}, []byte{1, 2, 3, 4})) + ` ND
+end end readonly put put
+dup /FontName get exch definefont pop
+`
 
 // TestEmit prints the digests of all outputs for the values built from a
 // seed; it is run in fresh processes by TestP2Processes.
@@ -451,9 +480,13 @@ type procCase struct {
 	N    int    `json:"n"`
 }
 
-func runEmit(seed uint64) ([]string, error) {
+func runEmit(seed uint64, tz string) ([]string, error) {
 	cmd := exec.Command(os.Args[0], "-test.run", "^TestEmit$")
 	cmd.Env = append(os.Environ(), fmt.Sprintf("VERIF_EMIT_SEED=%d", seed), "VERIF_OUT=")
+	if tz != "" {
+		// the environment differs between the processes as well
+		cmd.Env = append(cmd.Env, "TZ="+tz, "LANG="+map[bool]string{true: "C", false: "de_DE.UTF-8"}[len(tz)%2 == 0])
+	}
 	out, err := cmd.CombinedOutput()
 	if err != nil {
 		return nil, fmt.Errorf("%v: %s", err, out)
@@ -470,7 +503,7 @@ func runEmit(seed uint64) ([]string, error) {
 func checkProcesses(c *procCase) string {
 	var first []string
 	for p := 0; p < c.N; p++ {
-		ds, err := runEmit(c.Seed)
+		ds, err := runEmit(c.Seed, []string{"", "UTC", "Asia/Tokyo", "America/New_York", "Europe/Berlin", "Australia/Lord_Howe"}[p%6])
 		if err != nil {
 			return "emit process failed: " + err.Error()
 		}
@@ -497,7 +530,7 @@ func TestP2Processes(t *testing.T) {
 	rec := ev.New("C17", "processes")
 	defer rec.Finish(t)
 	nproc := ev.Total(3, 20)
-	rec.Rule(fmt.Sprintf("across processes: for a seed, 3 fonts (20-200 glyphs, colliding codes), 3 metrics values (0-6 ligatures per glyph) and 3 CMap files (2-5 CMaps with colliding names, duplicate source codes) are rebuilt from the seed in each of %d fresh processes (different map hash seeds); the SHA-256 digests of every writer output, of the GlyphLists, of the re-read font and of the ReadCMap result must agree between all processes. Non-trivial: every seed (all values have maps with >= 2 entries); distinct by seed.", nproc))
+	rec.Rule(fmt.Sprintf("across processes: for a seed, 3 fonts (20-200 glyphs, colliding codes), 3 metrics values (0-6 ligatures per glyph) and 3 CMap files (2-5 CMaps with colliding names, duplicate source codes) are rebuilt from the seed in each of %d fresh processes (different map hash seeds, and different TZ / LANG settings of the environment), which also read five fonts whose header carries a creation date in each accepted layout (three without a zone) and write them again; the SHA-256 digests of every writer output, of the GlyphLists, of the re-read font and of the ReadCMap result must agree between all processes. Non-trivial: every seed (all values have maps with >= 2 entries); distinct by seed.", nproc))
 	sh, n := ev.Shard()
 	seeds := ev.Total(6, 48)
 	for k := 0; k < seeds; k++ {
